@@ -765,4 +765,123 @@ theorem modInv_prime {p : ℕ} [hpf : Fact p.Prime] (a : ℤ) (ha : (a : ZMod p)
 
 end ModInv
 
+/-! ## T1e: `aff_from_jac` -/
+section AffFromJac
+open Btc.EC Jacobian.Point
+
+variable {p : ℕ} [Fact p.Prime] {c : CurveGroup}
+
+omit [Fact p.Prime] in
+theorem some_congr {W : Affine (ZMod p)} {x x' y y' : ZMod p} (h : W.Nonsingular x y)
+    (hx : x = x') (hy : y = y') : ∃ h', Affine.Point.some x y h = Affine.Point.some x' y' h' := by
+  subst hx hy; exact ⟨h, rfl⟩
+
+omit [Fact p.Prime] in
+theorem affFromJac_inf (Q : JacPoint) (hQz : Q.2.2 = 0) : affFromJac c Q = some INF := by
+  simp [affFromJac, hQz]
+
+variable (hp : c.p = (p : ℤ))
+include hp
+
+/-- the affine pair computed from a field inverse of `Z` is the point denoted by the triple -/
+theorem affFromZInv_spec (Q : JacPoint) (hQ : JValid p c Q) (hQz : Q.2.2 ≠ 0) (zi : ℤ)
+    (hzi : (Q.2.2 : ZMod p) * (zi : ZMod p) = 1) :
+    ∃ hns : (curveOf p c).toAffine.Nonsingular ((affFromZInv c Q zi).1 : ZMod p)
+        ((affFromZInv c Q zi).2 : ZMod p),
+      absJ p c Q = .some _ _ hns := by
+  have hz := hQ.Z_ne hQz
+  rw [absJ, toAffine_of_Z_ne_zero (hQ.2 hQz) hz]
+  rw [castJ_2] at hz
+  have hinv : (zi : ZMod p) = (Q.2.2 : ZMod p)⁻¹ := eq_inv_of_mul_eq_one_right hzi
+  apply some_congr
+  · simp only [affFromZInv, castJ_0, castJ_2, cast_emod hp, Int.cast_mul, hinv]
+    field_simp
+  · simp only [affFromZInv, castJ_1, castJ_2, cast_emod hp, Int.cast_mul, hinv]
+    field_simp
+
+/-- T1e: for a finite valid triple `aff_from_jac` succeeds and returns the coordinates of `abs Q`;
+`(Z·zinv) % p = 1` is not assumed: `modInv` is proved to return the field inverse. -/
+theorem affFromJac_spec (Q : JacPoint) (hQ : JValid p c Q) (hQz : Q.2.2 ≠ 0) :
+    ∃ A : Point, affFromJac c Q = some A ∧ (0 ≤ A.1 ∧ A.1 < c.p) ∧ (0 ≤ A.2 ∧ A.2 < c.p) ∧
+      ∃ hns : (curveOf p c).toAffine.Nonsingular (A.1 : ZMod p) (A.2 : ZMod p),
+        absJ p c Q = .some _ _ hns := by
+  have hz := hQ.Z_ne hQz
+  rw [castJ_2] at hz
+  obtain ⟨zi, hzi, _, _, hmul⟩ := modInv_prime Q.2.2 hz
+  have hpz : c.p ≠ 0 := by rw [hp]; exact_mod_cast (Fact.out : p.Prime).ne_zero
+  have hpp : 0 < c.p := by rw [hp]; exact_mod_cast (Fact.out : p.Prime).pos
+  refine ⟨affFromZInv c Q zi, ?_, ⟨Int.emod_nonneg _ hpz, Int.emod_lt_of_pos _ hpp⟩,
+    ⟨Int.emod_nonneg _ hpz, Int.emod_lt_of_pos _ hpp⟩, affFromZInv_spec hp Q hQ hQz zi hmul⟩
+  simp [affFromJac, hQz, hp, hzi]
+
+/-- T1e in btclib's own affine convention (`y = 0` spells infinity): the returned pair denotes
+`abs Q`, PROVIDED `Q` is not a 2-torsion point (`Y ≠ 0` in the field when `Z ≠ 0`).  For a
+2-torsion point `(x, 0)` the pair returned is `(x, 0)`, which btclib reads as infinity: the affine
+representation cannot express points of order 2 (see `affFromJac_two_torsion`). -/
+theorem affFromJac_absA (Q : JacPoint) (hQ : JValid p c Q)
+    (h2 : Q.2.2 = 0 ∨ (Q.2.1 : ZMod p) ≠ 0) :
+    ∃ A : Point, affFromJac c Q = some A ∧ AValid p c A ∧ absA p c A = absJ p c Q := by
+  by_cases hQz : Q.2.2 = 0
+  · refine ⟨INF, affFromJac_inf Q hQz, fun h => absurd rfl h, ?_⟩
+    rw [absJ_of_Z_eq_zero hQz, absA_of_y_eq_zero rfl]
+  · have hY : (Q.2.1 : ZMod p) ≠ 0 := h2.resolve_left hQz
+    obtain ⟨A, hA, _, _, hns, habs⟩ := affFromJac_spec hp Q hQ hQz
+    have e : castJ p (A.1, A.2, 1) = ![(A.1 : ZMod p), (A.2 : ZMod p), 1] := by simp [castJ]
+    have hn : (curveOf p c).Nonsingular (castJ p (A.1, A.2, 1)) := by
+      rw [e]; exact (Jacobian.nonsingular_some ..).mpr hns
+    have hAv : AValid p c A := fun _ => hn
+    refine ⟨A, hA, hAv, ?_⟩
+    -- `A.2 ≠ 0`: otherwise `abs Q = (x, 0)` and then `Y = 0`
+    have hA2 : A.2 ≠ 0 := by
+      intro h0
+      have hz := hQ.Z_ne hQz
+      rw [absJ, toAffine_of_Z_ne_zero (hQ.2 hQz) hz, Affine.Point.some.injEq, h0] at habs
+      have := habs.2
+      rw [castJ_1, castJ_2, Int.cast_zero, div_eq_zero_iff] at this
+      rcases this with h | h
+      · exact hY h
+      · exact hz (by rw [castJ_2]; exact pow_eq_zero_iff (by norm_num) |>.mp h)
+    obtain ⟨hns', hsome⟩ := absA_eq_some hA2 hAv
+    rw [hsome, habs]
+
+/-- the limitation made explicit: a finite triple with `Y = 0` in the field is a point of order 2,
+`abs Q ≠ 0`, and `aff_from_jac` returns a pair with `y = 0`, which every affine routine of btclib
+reads as infinity.  (Real btclib, `CurveGroup(11, 0, 10)`, `P = (7,1)` of order 4:
+`aff_from_jac_var(double_jac(P)) = (1, 0)` and `add_aff_var((1,0), P) = P ≠ 3P`.) -/
+theorem affFromJac_two_torsion (Q : JacPoint) (hQ : JValid p c Q) (hQz : Q.2.2 ≠ 0)
+    (hY : (Q.2.1 : ZMod p) = 0) :
+    ∃ A : Point, affFromJac c Q = some A ∧ A.2 = 0 ∧ absJ p c Q ≠ 0 := by
+  obtain ⟨A, hA, _, hA2, hns, habs⟩ := affFromJac_spec hp Q hQ hQz
+  refine ⟨A, hA, ?_, by rw [habs]; exact Affine.Point.some_ne_zero hns⟩
+  have hz := hQ.Z_ne hQz
+  rw [absJ, toAffine_of_Z_ne_zero (hQ.2 hQz) hz, Affine.Point.some.injEq] at habs
+  have h0 : (A.2 : ZMod p) = 0 := by rw [← habs.2, castJ_1, hY, zero_div]
+  have := (emod_eq_zero_iff hp A.2).mpr h0
+  rwa [Int.emod_eq_of_lt hA2.1 hA2.2] at this
+
+end AffFromJac
+
+/-! ## non-vacuity: a toy curve (`y² = x³ + 10` over `F₁₁`, the point `(7,1)` of order 4) -/
+section Examples
+open Btc.EC
+
+instance fact11 : Fact (Nat.Prime 11) := ⟨by decide⟩
+
+def toy : CurveGroup := ⟨11, 0, 10⟩
+
+theorem toy_valid : JValid 11 toy (7, 1, 1) := by
+  refine ⟨by decide, fun _ => ?_⟩
+  rw [curveOf, Jacobian.nonsingular_iff, Jacobian.equation_iff]
+  simp only [swc_a₁, swc_a₂, swc_a₃, swc_a₄, swc_a₆, castJ_0, castJ_1, castJ_2, toy]
+  decide
+
+example : absJ 11 toy (addJac toy (7, 1, 1) (doubleJac toy (7, 1, 1)))
+    = absJ 11 toy (7, 1, 1) + (absJ 11 toy (7, 1, 1) + absJ 11 toy (7, 1, 1)) := by
+  rw [addJac_refines rfl _ _ toy_valid (doubleJac_valid rfl _ toy_valid),
+    doubleJac_refines rfl _ toy_valid]
+
+example : AValid 11 toy (7, 1) := fun _ => toy_valid.2 (by decide)
+
+end Examples
+
 end Btc.C01
